@@ -107,3 +107,54 @@ Print Assumptions C04_refuse_attached.
 Print Assumptions C04_refuse_create.
 Print Assumptions C04_refuse_remove.
 Print Assumptions C04_nonvacuous.
+
+(* ---- on the code translated from the source on every run (GenTraph.v: Traph.retrieve_webentity, retrieve_prefix,
+   get_webentity_by_prefix; GenTrieW.v: LRUTrie.follow_lru; GenTrie.v: LRUTrie.lru_node; GenNode.v / GenStorage.v below).
+   For EVERY history, on any storage object holding the trie file of the state reached, the translated request answers
+   the SPECIFICATION's longest-prefix resolution (None = TraphException = no webentity above the LRU); it never fails
+   otherwise and leaves every byte of the file as it was. *)
+From Traph Require GenTrie GenTrieFacts GenTrieW GenTraph GenTraphFacts StoreFacts2 TraceDefs GenStorage.
+Import GenTraph GenTrieFacts GenStorage.
+Theorem C04_source_retrieve_webentity : forall d rs h, wf_rules rs -> Forall wf_op h ->
+  let s := run d rs h in let a := srun d rs h in
+  forall sg l, trep (TraceDefs.files_of s) sg -> wf_lru l ->
+  option_map snd (py_traph_retrieve_webentity sg l) = s_resolve_we l a /\
+  (forall r, py_traph_retrieve_webentity sg l = Some r -> pm_array (fst r) = pm_array sg).
+Proof.
+  intros d rs h H1 H2 s a sg l Hrep Hwf.
+  pose proof (StoreFacts2.run_Inv18 d rs h H2) as Hinv. fold s in Hinv.
+  pose proof (StoreFacts2.run_root_first d rs h) as Hroot. fold s in Hroot.
+  destruct (GenTraphFacts.py_traph_retrieve_webentity_spec s Hinv Hroot sg l Hrep Hwf) as [E Hf].
+  split; [rewrite E; exact (C04_retrieve_webentity d rs h H1 H2 l Hwf)|].
+  intros r Hr. exact (proj2 (Hf r Hr)).
+Qed.
+Theorem C04_source_retrieve_prefix : forall d rs h, wf_rules rs -> Forall wf_op h ->
+  let s := run d rs h in let a := srun d rs h in
+  forall sg l, trep (TraceDefs.files_of s) sg -> wf_lru l ->
+  option_map snd (py_traph_retrieve_prefix sg l) = s_resolve_prefix l a /\
+  (forall r, py_traph_retrieve_prefix sg l = Some r -> pm_array (fst r) = pm_array sg).
+Proof.
+  intros d rs h H1 H2 s a sg l Hrep Hwf.
+  pose proof (StoreFacts2.run_Inv18 d rs h H2) as Hinv. fold s in Hinv.
+  pose proof (StoreFacts2.run_root_first d rs h) as Hroot. fold s in Hroot.
+  destruct (GenTraphFacts.py_traph_retrieve_prefix_spec s Hinv Hroot sg l Hrep Hwf) as [E Hf].
+  split; [rewrite E; exact (C04_retrieve_prefix d rs h H1 H2 l Hwf)|].
+  intros r Hr. exact (proj2 (Hf r Hr)).
+Qed.
+Theorem C04_source_webentity_by_prefix : forall d rs h, wf_rules rs -> Forall wf_op h ->
+  let s := run d rs h in let a := srun d rs h in
+  forall sg p, trep (TraceDefs.files_of s) sg -> wf_lru p ->
+  option_map snd (py_traph_get_webentity_by_prefix sg p) = aget p (a_pref a).
+Proof.
+  intros d rs h H1 H2 s a sg p Hrep Hwf.
+  pose proof (StoreFacts2.run_Inv18 d rs h H2) as Hinv. fold s in Hinv.
+  pose proof (StoreFacts2.run_root_first d rs h) as Hroot. fold s in Hroot.
+  pose proof (GenTraphFacts.py_traph_get_webentity_by_prefix_spec s Hinv Hroot sg p Hrep Hwf) as H.
+  pose proof (C04_webentity_by_prefix d rs h H1 H2 p Hwf) as Hm. fold s a in Hm. rewrite Hm in H.
+  destruct (aget p (a_pref a)) as [w|].
+  - destruct H as (sg' & E & _). rewrite E. reflexivity.
+  - rewrite H. reflexivity.
+Qed.
+Print Assumptions C04_source_retrieve_webentity.
+Print Assumptions C04_source_retrieve_prefix.
+Print Assumptions C04_source_webentity_by_prefix.
